@@ -119,7 +119,14 @@ def replaceSync (a b : Bytes) (isHeader : Bool) (chunk : Bytes) : Bytes :=
   if isHeader then chunk.take (chunk.length - 16) ++ b
   else if chunk == a then b else chunk
 
+def scenarioVerdict (args : List Sexp) : Verdict :=
+  match args with
+  | [.atom name, .atom codec, .list [.atom "ok"]] => .ok s!"scenario/{name}/{codec}"
+  | [.atom name, _, .list (.atom "violated" :: why)] => .oracle s!"{name}: {why}"
+  | _ => .oracle s!"scenario outcome {args}"
+
 def c16 (op : String) (args : List Sexp) : Verdict :=
+  if op == "enc-scenario" then scenarioVerdict args else
   if op != "enc" then .bad s!"unknown op {op}" else
   match args.getLast? with
   | some (.list (.atom "panic" :: why)) => .oracle s!"an Encode / Flush call panicked: {why}"
